@@ -648,6 +648,7 @@ class RecipeRun:
                 self.baked = None
             else:
                 self.stats['probe:baked_ok'] += 1
+                self.check_stages_registered()
                 self.check_bake_result(known)
                 from . import tracking
                 tracking.check_tracking(self)
@@ -668,6 +669,23 @@ class RecipeRun:
             self.check_frozen('bake')
         self.log.append(rec)
         return rec
+
+    def check_stages_registered(self):
+        """C16: every stage the recipe accepted (incl. one closed by bake, incl. empty ones) is a timeframe afterwards."""
+        R = self.recipe
+        probe = None
+        for n in self.lc.declared:
+            probe = self.handles.get(n)
+            if probe is not None:
+                break
+        if probe is None:
+            return
+        for name in sorted(self.lc.stage_names - {'all'}):
+            out = self.call(lambda: R.get_container_flows(probe, timeframe=name))
+            if out[0] != 'ok':
+                self.V('C16', 'stage_not_registered', ('bake',), f"stage {name!r} was accepted but is not a timeframe after bake: {out[0]}: {out[1]}")
+            else:
+                self.stats['probe:stage_timeframe_checked'] += 1
 
     def first_excuse(self, props):
         if self.known is None:
